@@ -71,3 +71,11 @@ Fixpoint bad_from (i : Z) (l : list bool) : list Z :=
   match l with [] => [] | b :: t => if b then bad_from (i + 1) t else i :: bad_from (i + 1) t end.
 Definition bad (l : list bool) : list Z := bad_from 0 l.
 Definition count_true (l : list bool) : Z := Z.of_nat (length (filter (fun b => b) l)).
+
+Definition chk_VF2 (r : res (list Q * list Q)) (e : option (list xq * list xq)) : bool :=
+  match r, e with
+  | Ok (a1, a2), Some (b1, b2) => chk_VF (Ok a1) (Some b1) && chk_VF (Ok a2) (Some b2)
+  | Err _, None => true
+  | Err _, Some (b1, b2) => any_bad b1 || any_bad b2
+  | _, _ => false
+  end.
